@@ -16,6 +16,7 @@ class Undef(Exception):
 
 # ------------------------------------------------------------------ expressions
 LEAVES = ('arr', 'list', 'tup', 'tupr', 'tab', 'tree')
+HISTS = {'arrh': 'arr', 'listh': 'list', 'tuph': 'tup', 'tabh': 'tab', 'treeh': 'tree'}   # containers after a mutation history
 
 
 def p_ints(s):
@@ -30,6 +31,11 @@ def parse(toks, i=0):
     k = toks[i]
     if k in LEAVES:
         return {'k': k, 'xs': p_ints(toks[i + 1]), 'sub': []}, i + 2
+    if k in HISTS:
+        ops = [] if toks[i + 1] == '-' else toks[i + 1].split('/')
+        e = {'k': HISTS[k], 'ops': ops, 'sub': []}
+        e['xs'] = hist_list(e)             # None: the history is not defined (an operation is invalid)
+        return e, i + 2
     if k == 'range':
         return {'k': k, 'args': p_args(toks[i + 1]), 'sub': []}, i + 2
     if k == 'slice':
@@ -61,8 +67,70 @@ def a_s(args):
     return ','.join(str(a) for a in args) if args else '-'
 
 
+def apply_op(kind, xs, op):
+    """the element list after one operation, as Array.c / List.c / Tuple.c define it for VALID arguments;
+    Undef for anything that raises (or whose effect differs between the containers)"""
+    c, a = op[0], op[1:]
+    n = len(xs)
+    if kind in ('tab', 'tree'):                       # xs = list of distinct keys (order irrelevant)
+        if c == 'k':
+            return xs if int(a) in xs else xs + [int(a)]
+        if c == 'r':
+            if int(a) not in xs: raise Undef('rem of an absent key')
+            return [x for x in xs if x != int(a)]
+        if c == 'z':
+            if int(a) == 0: return []
+            if kind == 'tree' or int(a) < n: raise Undef('resize')
+            return xs
+        raise Undef('operation ' + op)
+    if c == 'p': return xs + [int(a)]
+    if c == 'o':
+        if not n: raise Undef('pop of an empty container')
+        return xs[:-1]
+    if c == 'x':
+        i = int(a)
+        if not 0 <= i < n: raise Undef('pop_at out of range')
+        return xs[:i] + xs[i + 1:]
+    if c == 'r':
+        v = int(a)
+        if v not in xs: raise Undef('rem of an absent value')
+        i = xs.index(v); return xs[:i] + xs[i + 1:]
+    if c == 'a':
+        i, v = (int(t) for t in a.split(':'))
+        ok = 0 <= i <= n if kind == 'arr' else (0 <= i < n or (kind == 'list' and i == 0))
+        if not ok: raise Undef('push_at out of range')
+        return xs[:i] + [v] + xs[i:]
+    if c == 'z':
+        m = int(a)
+        if m < n: return xs[:m]
+        if kind == 'arr': return xs                   # only reserves
+        if kind == 'list': return xs + [0] * (m - n)  # appends zero Ints
+        raise Undef('Tuple cannot be resized upwards')
+    if c == 'c': return xs + p_ints(a or '-')
+    if c == 's':
+        if kind == 'list': raise Undef('List has no Sort')
+        return sorted(xs)
+    raise Undef('operation ' + op)
+
+
+def hist_list(e):
+    xs, ops = [], list(e['ops'])
+    try:
+        if ops and ops[0][:1] == 'n':
+            if e['k'] in ('tab', 'tree'): return None
+            xs = p_ints(ops[0][1:] or '-'); ops = ops[1:]
+        for op in ops:
+            if not op or op[0] == 'n': return None
+            xs = apply_op(e['k'], xs, op)
+        return xs
+    except (Undef, ValueError):
+        return None
+
+
 def unparse(e):
     k = e['k']
+    if k in LEAVES and 'ops' in e:
+        return '%sh %s' % (k, '/'.join(e['ops']) if e['ops'] else '-')
     if k in LEAVES:
         return '%s %s' % (k, a_s(e['xs']))
     if k == 'range':
@@ -167,6 +235,8 @@ def ev(e, leaves):
     """the list of items the expression denotes; `leaves` = iterator over the observed forward
     sequences of the Table/Tree leaves (their order is not fixed by this property)"""
     k = e['k']
+    if k in LEAVES and e['xs'] is None:
+        raise Undef('history with an invalid operation')
     if k in ('arr', 'list', 'tup', 'tupr'):
         return list(e['xs'])
     if k in ('tab', 'tree'):
@@ -215,7 +285,23 @@ def oracle(case, impl, spec=None):
         e = parse_case(case)
     except Exception:
         return None
+    died = None
+    for mark in (' | CRASH(', ' | TIMEOUT', ' | EXIT('):
+        if mark in impl:
+            impl, died = impl[:impl.index(mark)], impl[impl.index(mark) + 3:]
     d = sections(impl)
+    if died and 'build' not in d:
+        # the child died in the middle of a section: every section before it is complete and judged as usual below
+        names = {'len': 'len', 'leaf': 'the walk of a Table/Tree leaf', 'fwd': 'forward iteration', 'bwd': 'backward iteration',
+                 'get': 'get(0..len-1)', 'gx': 'get beyond the ends', 'sl': 'the dump', 'tab': 'the dump', 'hist': 'the dump'}
+        order = ['len', 'leaf', 'fwd', 'bwd', 'get', 'gx', 'sl', 'tab', 'hist']
+        missing = [k for k in order if k not in d]
+        last = order[order.index(missing[0]) - 1] if missing and missing[0] != 'len' else None
+        # the section that was being printed is the first missing one (its header is flushed only with its content)
+        died_in = missing[0] if missing else 'hist'
+        died_msg = '%s: the harness child ended with %s' % (names[died_in], died)
+    else:
+        died_msg = None
     if 'build' in d:
         try:
             ev(e, iter([[]] * 99))
@@ -224,8 +310,12 @@ def oracle(case, impl, spec=None):
         except Exception:
             pass
         return 'construction raised %s' % d['build']
+    if any(n['k'] in LEAVES and n['xs'] is None for n in nodes(e)):
+        return None                     # a history with an invalid operation: nothing is demanded
+    if d.get('hist', '0') != '0':
+        return None                     # an operation of the history raised (C04/C12's business): the list is not defined
     if 'len' not in d:
-        return 'no transcript: %s' % impl[-80:]
+        return died_msg or 'no transcript: %s' % impl[-80:]
     # Table / Tree leaves: any order, but exactly the distinct keys
     lv = []
     leaf_nodes = [n for n in nodes(e) if n['k'] in ('tab', 'tree')]
@@ -251,12 +341,12 @@ def oracle(case, impl, spec=None):
         return 'len is %s, the definition selects %d items' % (d['len'], len(want))
     for sec, w, what in (('fwd', want, 'forward iteration'), ('bwd', want[::-1], 'backward iteration')):
         if sec not in d:
-            return '%s: no result (%s)' % (what, impl[-60:])
+            return died_msg or '%s: no result (%s)' % (what, impl[-60:])
         if items(d[sec]) != w:
             return '%s yields %s, must be %s' % (what, d[sec][:200], ','.join(w)[:200])
     if haslen(e) and hasget(e):
         if 'get' not in d:
-            return 'get: no result (%s)' % impl[-60:]
+            return died_msg or 'get: no result (%s)' % impl[-60:]
         if items(d['get']) != want:
             return 'get(0..len-1) yields %s, forward iteration %s' % (d['get'][:200], ','.join(want)[:200])
     if e['k'] == 'range' and 'gx' in d and d['gx'] != '-':
@@ -267,14 +357,16 @@ def oracle(case, impl, spec=None):
         if items(d['gx']) != wx:
             return 'get at -1,-len,-len-1,len,INT64_MAX,INT64_MIN yields %s, must be %s' % (d['gx'], ','.join(wx))
     if 'tab' not in d:
-        return 'transcript incomplete: %s' % impl[-80:]
-    return None
+        return died_msg or 'transcript incomplete: %s' % impl[-80:]
+    return died_msg
 
 
 def spec_line(case):
     """the specification's transcript (for replay files; the oracle recomputes it)"""
     try:
         e = parse_case(case)
+        if any(n['k'] in LEAVES and n['xs'] is None for n in nodes(e)):
+            raise Undef('history with an invalid operation')
         lv = [sorted(set(n['xs'])) for n in nodes(e) if n['k'] in ('tab', 'tree')]
         want = [show(v) for v in ev(e, iter(lv))]
         return 'len=%s;fwd=%s;bwd=%s;get=%s' % (len(want) if haslen(e) else 'undefined', ','.join(want), ','.join(want[::-1]),
@@ -290,7 +382,7 @@ def corr(case, impl, model):
     if impl == model:
         return None
     a, b = sections(impl), sections(model)
-    for k in ('build', 'len', 'leaf', 'fwd', 'bwd', 'get', 'gx', 'sl', 'tab'):
+    for k in ('build', 'len', 'leaf', 'fwd', 'bwd', 'get', 'gx', 'sl', 'tab', 'hist'):
         if a.get(k) != b.get(k):
             return 'section %s: implementation %s / model %s' % (k, str(a.get(k))[:200], str(b.get(k))[:200])
     return 'implementation %s / model %s' % (impl[-100:], model[-100:])
@@ -301,6 +393,11 @@ def feats(e):
     """boundary predicates a case exercises (also the histogram in the evidence)"""
     f = set()
     try:
+        if any(n['k'] in LEAVES and n['xs'] is None for n in nodes(e)):
+            raise Undef('history')
+        for n in nodes(e):
+            if 'ops' in n:
+                hist_feats(n, f)
         lv = [sorted(set(n['xs'])) for n in nodes(e) if n['k'] in ('tab', 'tree')]
         it = iter(lv)
 
@@ -360,6 +457,30 @@ def feats(e):
     return f
 
 
+def hist_feats(n, f):
+    """boundary predicates of a mutation history"""
+    k = n['k']; f.add('history-' + k)
+    xs, ops = [], list(n['ops'])
+    if ops and ops[0][:1] == 'n':
+        xs = p_ints(ops[0][1:] or '-'); ops = ops[1:]
+    emptied = False
+    for op in ops:
+        m = len(xs); c = op[0]
+        if k in ('tab', 'tree'):
+            if c == 'r': f.add('history-rem-key')
+            if c == 'z': f.add('history-cleared')
+        else:
+            if (c == 'x' and op[1:] == '0' and m >= 2) or (c == 'r' and m >= 2 and xs[0] == int(op[1:])): f.add('history-head-removed')
+            if c == 'o' or (c == 'x' and int(op[1:]) == m - 1) or (c == 'r' and xs and xs.index(int(op[1:])) == m - 1): f.add('history-tail-removed')
+            if (c == 'x' and 0 < int(op[1:]) < m - 1): f.add('history-middle-removed')
+            if c == 'a': f.add('history-push_at-' + ('head' if op[1:].startswith('0:') else 'inner'))
+            if c in 'zcs': f.add('history-' + {'z': 'resize', 'c': 'concat', 's': 'sort'}[c])
+        xs = apply_op(k, xs, op)
+        if m and not xs: emptied = True
+        if emptied and xs: f.add('history-emptied-and-refilled')
+    if not xs: f.add('history-ends-empty')
+
+
 FEAT_HIST = {}
 
 
@@ -398,6 +519,21 @@ def shrink_candidates(e):
     for u in e['sub']:
         yield u
     k = e['k']
+    if k in LEAVES and 'ops' in e:
+        ops = e['ops']
+        mk = lambda o: (lambda n: dict(n, xs=hist_list(n)))(dict(e, ops=o))
+        if e['xs'] is not None:
+            yield {'k': k, 'xs': list(e['xs']), 'sub': []}          # the same elements, freshly built
+        for i in range(len(ops) - 1, -1, -1):
+            c = mk(ops[:i] + ops[i + 1:])
+            if c['xs'] is not None: yield c
+        for i, op in enumerate(ops):                                 # shorter element lists inside n.. / c..
+            if op[0] in 'nc' and ',' in op:
+                vs = op[1:].split(',')
+                for j in range(len(vs)):
+                    c = mk(ops[:i] + [op[0] + ','.join(vs[:j] + vs[j + 1:])] + ops[i + 1:])
+                    if c['xs'] is not None: yield c
+        return
     if k in LEAVES:
         xs = e['xs']
         if len(xs) > 1:
@@ -466,7 +602,88 @@ def contents(rng, n, kind):
     return [rng.choice([0, 1, 2, 3, -1, 5, 6, 7]) for _ in range(n)]
 
 
+TAB_KEYS = [0, 1265, 2530, 3795, 5060, 6325, 1, 1266, 2531, 4, 1269, 2534, 5, 10, 11, 22, 23, 46, -1, 7]   # 1265 = 5*11*23
+
+
+def gen_history(rng, kind, maxops=12):
+    """a VALID mutation history (<= maxops operations) of one container; head/tail removal, emptying and refilling
+    are frequent.  Returns the expression node."""
+    ops, xs = [], []
+    style = rng.choice(['mixed', 'mixed', 'head', 'tail', 'drain', 'grow'])
+    if kind in ('tab', 'tree'):
+        pool = TAB_KEYS if kind == 'tab' else list(range(-3, 14))
+        nops = rng.randrange(1, maxops + 1)
+        fill = rng.randrange(2, 9) if style in ('drain', 'grow', 'head') else rng.randrange(0, 4)
+        while len(ops) < nops:
+            r = rng.random()
+            if len(ops) < fill or not xs and r < .8:
+                op = 'k%d' % rng.choice(pool)
+            elif style == 'drain' and xs and r < .85:
+                op = 'r%d' % rng.choice([xs[0], xs[-1], rng.choice(xs)])
+            elif r < .45 and xs:
+                op = 'r%d' % rng.choice([xs[0], xs[0], xs[-1], rng.choice(xs)])     # the first inserted key is often the Tree root
+            elif r < .55:
+                op = 'z0' if kind == 'tree' or rng.random() < .6 else 'z%d' % (len(xs) + rng.choice([0, 1, 9, 20]))
+            else:
+                op = 'k%d' % rng.choice(pool)
+            xs = apply_op(kind, xs, op); ops.append(op)
+        e = {'k': kind, 'ops': ops, 'sub': []}
+        e['xs'] = hist_list(e)
+        return e
+    val = lambda: rng.choice([0, 1, 2, 3, 4, 5, 6, 7, rng.randrange(-9, 10)])
+    if rng.random() < .75:
+        xs = [val() for _ in range(rng.choice([1, 2, 2, 3, 3, 4, 5, 6]))]
+        ops.append('n' + a_s(xs))
+    nops = rng.randrange(1, maxops + 1)
+    for _ in range(nops):
+        n = len(xs); r = rng.random()
+        cand = []
+        if n:
+            cand += ['x0', 'r%d' % xs[0]] * (4 if style in ('head', 'drain') else 2)                       # head removal
+            cand += ['o', 'x%d' % (n - 1), 'r%d' % xs[-1]] * (3 if style in ('tail', 'drain') else 1)        # tail removal
+            if n > 2: cand += ['x%d' % rng.randrange(1, n - 1), 'r%d' % xs[rng.randrange(1, n - 1)]]       # middle
+            cand += ['a0:%d' % val(), 'a%d:%d' % (n - 1, val()), 'a%d:%d' % (rng.randrange(0, n), val())]
+            cand += ['z%d' % rng.randrange(0, n), 'z0']
+        if style != 'drain' or not n:
+            cand += ['p%d' % val()] * (3 if style == 'grow' or not n else 2)
+            cand += ['c%s' % a_s([val() for _ in range(rng.randrange(0, 4))])]
+            if kind == 'list' or kind == 'arr': cand += ['z%d' % (n + rng.randrange(0, 4))]
+            if kind == 'list' and not n: cand += ['a0:%d' % val()]
+            if kind == 'arr': cand += ['a%d:%d' % (n, val())]
+        if kind in ('arr', 'tup') and n > 1: cand += ['s']
+        op = rng.choice(cand)
+        try:
+            xs = apply_op(kind, xs, op)
+        except Undef:
+            continue
+        ops.append(op)
+    e = {'k': kind, 'ops': ops, 'sub': []}
+    e['xs'] = hist_list(e)
+    return e
+
+
+def history_boundary():
+    out = []
+    for k in ('arrh', 'listh', 'tuph'):
+        out += ['%s %s' % (k, h) for h in (
+            '-', 'p1', 'n1/o', 'n1/x0', 'n1/r1', 'n1,2/x0', 'n1,2/o', 'n1,2/r1', 'n1,2/r2', 'n1,2,3/x0', 'n1,2,3/x1', 'n1,2,3/x2',
+            'n1,2,3/r1', 'n1,2,3/r2', 'n1,2,3/r3', 'n1,2,3/x0/x0', 'n1,2,3/x0/x0/x0', 'n1,2,3/x0/x0/x0/p4/p5', 'n1,2,3/o/o/o/p4',
+            'n1,2,3/a0:9', 'n1,2,3/a1:9', 'n1,2,3/a2:9', 'n1,2,3/x0/a0:9', 'n1,2,3/z2', 'n1,2,3/z0/p7/p8', 'n1,2,3/z1/p5',
+            'n1,2,3/c4,5', 'n1,2/c-', 'c1,2,3/x0', 'p1/p2/p3/x0/p4/x0/o', 'n1,2,3,4,5/x0/x3/x1', 'n5,5,5/r5/r5', 'n1,2,3/x0/c7,8/x0/o')]
+    out += ['arrh n3,1,2/s', 'arrh n3,1,2/s/x0/p0/s', 'tuph n3,1,2/s/x0', 'arrh n1,2/z9/p3/x0', 'arrh n1,2,3/a3:9/x0', 'listh n1,2/z4/x0/o',
+            'listh a0:1/a0:2/x0', 'listh n1,2,3/x0/z5/x0', 'rev listh n1,2,3/x0', 'slice 1,_ listh n1,2,3,4/x0', 'zip 2 listh n1,2,3/x0 arrh n1,2,3/x0',
+            'filter 2 listh n1,2,3,4/x0/x0', 'map 1 tuph n1,2,3/x0/a0:9', 'enum arrh n1,2,3/o/p7']
+    out += ['tabh -', 'tabh k1', 'tabh k1/r1', 'tabh k1/r1/k2', 'tabh k0/k1265/k2530/r0', 'tabh k0/k1265/k2530/r1265', 'tabh k0/k1265/k2530/r2530/k0',
+            'tabh k4/k1269/k2534/r4/k9', 'tabh k1/k2/k3/k4/k5/r1/r2/r3', 'tabh k1/k2/k3/k4/k5/r5/r4/r3/r2/r1/k7', 'tabh k1/k2/z0/k3/k4', 'tabh k1/k2/z9/r1',
+            'tabh k0/k5/k10/k15/r0/r5', 'rev tabh k0/k1265/k2530/r0', 'treeh -', 'treeh k1', 'treeh k1/r1', 'treeh k1/r1/k2', 'treeh k5/k3/k8/r5',
+            'treeh k5/k3/k8/k1/k4/k7/k9/r3', 'treeh k5/k3/k8/k1/k4/k7/k9/r5/r8', 'treeh k1/k2/k3/k4/k5/k6/r1/r2/r3/r4/r5/r6/k3', 'treeh k5/k3/z0/k2/k9',
+            'treeh k3/k2/k1/r3/r2', 'rev treeh k5/k3/k8/k1/r5', 'slice _,_,2 treeh k5/k3/k8/k1/k9/r5']
+    return out
+
+
 def leaf(rng, maxlen):
+    if rng.random() < .25:
+        return gen_history(rng, rng.choice(KINDS), 8)
     kind = rng.choice(KINDS + ('arr', 'range', 'range'))
     if kind == 'range':
         return {'k': 'range', 'args': range_args(rng, max(3, maxlen)), 'sub': []}
@@ -619,7 +836,9 @@ def run(ctx):
     quick = ctx.tier == 'quick'
     ctx.cov['rule'] = (
         'cases are iterable expressions: a leaf (Array/List/Tuple/Table/Tree with 0..N integer elements, or range(start,stop,step) '
-        'with arguments omitted / negative / beyond) under up to 3 view layers slice(a,b,s)/reverse/zip(k inputs)/enumerate/'
+        'with arguments omitted / negative / beyond; or an Array/List/Tuple/Table/Tree after a seeded VALID mutation history of <= 12 operations '
+        '(push, pop, pop_at/rem at head, middle, tail, push_at, resize down/up, concat, sort; set/rem/resize with colliding keys for Table, '
+        'root and two-children removals for Tree; head/tail removal, draining and refilling frequent)) under up to 3 view layers slice(a,b,s)/reverse/zip(k inputs)/enumerate/'
         'filter(6 predicates)/map(5 functions).  Streams: corpus of repaired witnesses; hand-written boundary set; EXHAUSTIVE '
         'boxes (all range(a,b,s) and all slice(a,b,s) over a container, arguments in [-B,B] or omitted); seeded ranges of magnitude up to 2^62-1; seeded random nested '
         'expressions.  For each case the harness prints len, forward walk (cut off at 2*len+4), backward walk, get(0..len-1); the '
@@ -661,7 +880,7 @@ def run(ctx):
             for i in range(0, len(cs), 1000):
                 chunk = cs[i:i + 1000]
                 rc, lines, err = ctx.run_lines(exe, chunk, env=dict(env, H_NOFORK='1'), timeout=60)
-                if rc != 0 or len(lines) != len(chunk):
+                if rc != 0 or len(lines) != len(chunk) or any(l.startswith('HARNESS-') for l in lines):
                     rc, lines, err = ctx.run_lines(exe, chunk, env=env, timeout=3000)
                     stats['forked'] += len(chunk)
                 else:
@@ -708,7 +927,7 @@ def run(ctx):
                 ctx.notes.append('open finding %s no longer reproduces on its witness %s' % (f['signature'], probe))
 
     d.feed(CORPUS, 'corpus')
-    d.feed(boundary_cases(), 'boundary')
+    d.feed(boundary_cases() + history_boundary(), 'boundary')
     rng = ctx.rng
     if quick:
         B = 12
@@ -727,6 +946,11 @@ def run(ctx):
                 cases.append('slice %s %s %s' % (a_s([rng.choice(opt_box(B)), rng.choice(opt_box(B)), rng.choice(allsteps)]),
                                                  kind, a_s(contents(rng, n, kind))))
         cases += [big_range(rng) for _ in range(1500)]
+        # every container kind after a seeded mutation history, bare and under one view
+        for kind in KINDS:
+            cases += [unparse(gen_history(rng, kind)) for _ in range(4000)]
+            cases += [rng.choice(['rev %s', 'slice _,_,2 %s', 'slice 1,-1 %s', 'enum %s', 'filter 2 %s', 'map 1 %s', 'zip 2 %s range 4', 'slice _,_,-2 %s'])
+                      % unparse(gen_history(rng, kind)) for _ in range(800)]
         cases += [unparse(gen_expr(rng, rng.choice([1, 2, 2, 3, 3]), 9)) for _ in range(6000)]
         ctx.cov['exhaustive'] = {'range_box': 'all range(a,b,s), a,s in [-12,12] or omitted, b in [-12,12], s != 0',
                                  'slice_box_array': 'all slice(a,b,s) over Arrays of length 0..9, a,b in [-12,12] or omitted, s in [-12,12]\\{0} or omitted',
@@ -746,6 +970,10 @@ def run(ctx):
                 cases.append('slice %s %s %s' % (a_s([rng.choice(opt_box(B)), rng.choice(opt_box(B)), rng.choice([t for t in opt_box(B) if t != 0])]),
                                                  kind, a_s(contents(rng, n, kind))))
         cases += [big_range(rng) for _ in range(20000)]
+        for kind in KINDS:
+            cases += [unparse(gen_history(rng, kind, rng.choice([6, 12, 20]))) for _ in range(40000)]
+            cases += [rng.choice(['rev %s', 'slice _,_,2 %s', 'slice 1,-1 %s', 'enum %s', 'filter 2 %s', 'map 1 %s', 'zip 2 %s range 4', 'slice _,_,-2 %s'])
+                      % unparse(gen_history(rng, kind)) for _ in range(8000)]
         cases += [unparse(gen_expr(rng, 3, rng.choice([5, 12, 40]))) for _ in range(100000)]
         ctx.cov['exhaustive'] = {'range_box': 'all range(a,b,s) with arguments in [-20,20] or omitted',
                                  'slice_box': 'all slice(a,b,s) over lengths 0..12,17,25,40 with a,b in [-(n+3),n+3] or omitted, s in [-(n+4),n+4]'}
